@@ -98,6 +98,24 @@ Theorem C18_samples : forall path upf text,
 Proof. exact all_samples_clean. Qed.
 Print Assumptions C18_samples.
 
+(* T1: the comment expression, the supported modes and the defaults read from config.go on this run
+   are the ones the models are about. *)
+Theorem C18_source_constants :
+  src_regexp = "(?m)//.*$|/\*.*?\*/" /\
+  (forall m, In m src_modes <-> In m supported_modes) /\
+  src_max_req_retries = max_req_retries_default /\ src_read_timeout = read_timeout_default /\
+  src_resp_timeout = resp_timeout_default /\ src_hb_interval = hb_interval_default.
+Proof. exact source_constants_match. Qed.
+Print Assumptions C18_source_constants.
+
+(* the boolean the driver evaluates on what the implementation returned is the statement of C18_validated *)
+Theorem C18_monitor_is_the_statement :
+  forall (dur_ok cidr_ok ip_ok : string -> bool) (c : conf),
+  validated_b dur_ok cidr_ok ip_ok c = true <->
+  defaults_filled c /\ durations_ok dur_ok c /\ mode_ok c /\ addresses_ok cidr_ok ip_ok c.
+Proof. exact validated_b_spec. Qed.
+Print Assumptions C18_monitor_is_the_statement.
+
 (* ---------------------------------------------------------------------------- non-vacuity *)
 Definition ex_dur (s : string) : bool := existsb (String.eqb s) ["2s"; "5s"; "500ms"].
 Definition ex_cidr (s : string) : bool := existsb (String.eqb s) ["172.17.0.1/32"; "10.250.0.0/16"].
